@@ -247,8 +247,10 @@ class StringifyMapper(Mapper):
 
     def map_power(self, expr, enclosing_prec, *args, **kwargs):
         return self.parenthesize_if_needed(
+                # '**' associates to the right: a power in the base needs
+                # parentheses, (a**b)**c is not a**b**c.
                 self.format("%s**%s",
-                    self.rec(expr.base, PREC_POWER, *args, **kwargs),
+                    self.rec(expr.base, PREC_POWER+1, *args, **kwargs),
                     self.rec(expr.exponent, PREC_POWER, *args, **kwargs)),
                 enclosing_prec, PREC_POWER)
 
